@@ -226,6 +226,19 @@ func c06AfterHand(p *Play, hd *h.Hand) {
 			}
 		}
 	}
+	// the labels published at open stay put for the whole hand
+	for _, e := range hd.Snaps {
+		for _, ps := range e.T.State.PlayerStates {
+			pi := open.FindPlayerIdx(ps.PlayerID)
+			if pi < 0 {
+				continue
+			}
+			if !reflect.DeepEqual(append([]string{}, ps.Positions...), append([]string{}, open.State.PlayerStates[pi].Positions...)) {
+				c.Violate("C06/labels-changed-during-hand", fmt.Sprintf("hand %d: %s was labelled %v at open and %v in snapshot #%d (%s)", p.HandNo, ps.PlayerID, open.State.PlayerStates[pi].Positions, ps.Positions, e.Seq, e.T.State.Status), p.witness())
+				return
+			}
+		}
+	}
 	// next-BB order on the settled snapshot
 	st := hd.Settled.T
 	n := st.Meta.TableMaxSeatCount
